@@ -9,7 +9,7 @@ CONSTANTS
   Static,     \* [Node -> Int]        evaluate::score at remaining depth 0
   MateBonus,  \* [Node -> Int]        added per remaining depth when the node has no moves
   Root, RootMax, Depth,
-  KeyMode     \* "full" = (hash, depth, side, alpha, beta); "window" = (hash, alpha, beta)
+  KeyMode     \* "full" = (hash, depth, side, alpha, beta); "window" = (hash, alpha, beta); "noside"; "nodepth"
 
 MIN == -99
 MAX == 99
@@ -31,8 +31,10 @@ Minimax(n, d, mx) ==
        IN IF mx THEN CHOOSE v \in vals : \A w \in vals : v >= w
           ELSE CHOOSE v \in vals : \A w \in vals : v <= w
 
-CKey(f) == IF KeyMode = "full" THEN <<PosKey[f.n], f.d, f.mx, f.a, f.b>>
-           ELSE <<PosKey[f.n], f.a, f.b>>
+CKey(f) == CASE KeyMode = "full" -> <<PosKey[f.n], f.d, f.mx, f.a, f.b>>
+             [] KeyMode = "noside" -> <<PosKey[f.n], f.d, f.a, f.b>>      \* negative control: side to move dropped
+             [] KeyMode = "nodepth" -> <<PosKey[f.n], f.mx, f.a, f.b>>    \* negative control: remaining depth dropped
+             [] OTHER -> <<PosKey[f.n], f.a, f.b>>                        \* "window": the pinned tree's key
 
 Frame(n, d, a, b, mx) == [n |-> n, d |-> d, a |-> a, b |-> b, mx |-> mx,
                           v |-> IF mx THEN MIN ELSE MAX, i |-> 0, a0 |-> a, b0 |-> b]
